@@ -1,5 +1,5 @@
 """C07 resuming after a runtime error reproduces the same error."""
-REG_DRAFT = dict(
+REG = dict(
     engine='E1-enum',
     technique='bounded-exhaustive enumeration of error sites (the C02 call grid plus user-call / syntax-form errors, in three contexts), each replayed as run + 3 x :resume on the real JSON-session handler',
     text="Every case of the C02 grid (every public built-in/prelude function and method x argument vectors over the 20-value pool, full product for <=2 positions and deviation-bounded beyond, arity n-1/n+1; every binary operator and +=/-= over pool x pool; the syntax forms x pool) plus user-function/closure/method arity and type errors, throw, assert, let hints, destructuring, match without a case, struct-literal errors, return-type errors, unknown variable/method/field and failing subexpressions with live siblings. A first pass (`run` job) keeps the cases that raise a Garden exception or assertion. Each is then sent to a fresh JSON session (real handle_request_in_worker on one Env) at top level, inside a called function and inside a block inside a loop, followed by three `:resume` requests with nothing changed (prefixes cover 1 and 2 resumes). Oracle: every resume response is an error with the same message text and the same position as the first one. Exhaustive within the pool and deviation bound.",
